@@ -214,6 +214,9 @@ func tierOf(prop, tier string) tierCfg {
 	if w < 2 {
 		w = 2
 	}
+	if v := int(envFloat("VERIF_WORKERS", 0)); v >= 1 && v <= 64 {
+		w = v
+	}
 	if tier == "thorough" {
 		return tierCfg{BudgetS: envFloat("VERIF_THOROUGH_S", 900), Workers: w}
 	}
